@@ -452,9 +452,9 @@ class DataType(object):
         if len(self.get_split()) <= len(other.get_split()):
             return False
 
-        previous_length = len(other.type)
-
-        if self.type[:previous_length] != other.type[:previous_length]:
+        # All existing choices must be kept, in the same order. Note that
+        # we must compare the choices rather than the data type strings.
+        if self.get_split()[:len(other.get_split())] != other.get_split():
             return False
 
         return True
